@@ -77,6 +77,7 @@ fn mk_call(cid: u32, seq: u32, c: &CallSpec) -> Call<CliMethod> {
         CallSpec::Fail { .. } => CliMethod::Fail { cid, seq },
         CallSpec::Slow { polls, .. } => CliMethod::Slow { cid, seq, polls: *polls },
         CallSpec::Stream { flags, ends } => CliMethod::Stream { cid, seq, flags: flags.clone(), ends: *ends },
+        CallSpec::Deferred { .. } => unreachable!("real clients are not given deferred calls"),
     };
     Call::new(m).set_oneway(c.oneway()).set_more(matches!(c, CallSpec::Stream { .. }))
 }
@@ -212,6 +213,7 @@ pub async fn run_real_client(world: World, mut conn: Connection<SimSocket>, spec
                         }
                         None
                     }
+                    CallSpec::Deferred { .. } => unreachable!("real clients are not given deferred calls"),
                     CallSpec::Stream { flags, ends } => {
                         match conn.stream(cid, seq, flags.clone(), *ends).await {
                             Ok(s) => {
